@@ -437,6 +437,9 @@ class Interp:
                 continue
             fr = Frame(f.module, f.closure, cls=f.cls)
             dec = self.ev(d, fr)
+            if isinstance(dec, Ext) and dec.dotted in ('functools.singledispatch', 'singledispatch') and isinstance(v, FuncRef):
+                v = self.models.SingleDispatch(self, v)
+                continue
             if isinstance(dec, (Ext, Builtin, Sym, Term)):
                 raise Fail(f'decorator {ast.unparse(d)[:40]} of {f.qual} is not modelled')
             v = self.call(dec, [v], {}, d)
@@ -1361,6 +1364,8 @@ class Interp:
             return Ext(v.dotted + '.' + a)
         if isinstance(v, Builtin):
             import builtins as _bi
+            if a in ('__name__', '__qualname__') and '.' not in v.name:
+                return K(v.name)
             ty = getattr(_bi, v.name, None) if '.' not in v.name else None
             if isinstance(ty, type) and not hasattr(ty, a):
                 raise RaiseEx('AttributeError', f"type object '{v.name}' has no attribute '{a}'", n)
